@@ -28,7 +28,7 @@ MANIFEST = {
     "category": "exploration",
     "text": "Every run span created by the real engine is captured; after each execution every opened run must own exactly "
             "one span, ended once, carrying that run's exit status, including interleaved keys and engine-closed runs.",
-    "note": "Corpus plans x all coordinates x kinds; recording provider replaces the OpenTelemetry SDK.",
+    "note": "Corpus plans x all coordinates x kinds, device faults, RunStop-emission faults; recording provider replaces the OpenTelemetry SDK.",
     "design_ref": "3 (C42)",
 }
 PLANS_Q = ["nested", "keys_b", "two_runs", "neverclose", "rw_fail", "scan", "keys_dup", "park", "neverclose2"]
